@@ -1183,3 +1183,701 @@ def rule_negative_sentinel(repo, col, roots=((TABLE, 'Table.merge'),
                    'negative absent markers are not tested against None')
     col.ok(rule, TABLE, '<scope>', 'scan', None,
            '%d negative-default lookups' % n)
+
+
+# ===========================================================================
+# seventh round of seeded changes
+# ===========================================================================
+RULE_TEXT.update({
+    'TA-ONESHOT': 'a one-shot iterator (map / filter / zip / enumerate / '
+                  'generator expression bound to a name) is consumed at '
+                  'most once: not inside a loop it was created outside of, '
+                  'and not by two consumers in sequence.',
+    'OR-WARNSUPPRESS': 'the library never installs a blanket '
+                       '"ignore all warnings" filter: the configured '
+                       '"warn" reaction is delivered through the warnings '
+                       'module.',
+    'TA-PARTIALDECODE': 'a header attribute read from the file is not '
+                        'passed through a helper that returns nothing for '
+                        'text: h5py returns str for string attributes.',
+    'AG-DATEINV': 'the stored date text is parsed whole (no slicing): an '
+                  'offset-aware date keeps its offset.',
+    'AG-DENSEFLAG': 'from_json decides dense/sparse from matrix_type only.',
+    'AG-GROUPMD': 'a group-metadata entry is (data type, text): the first '
+                  'element goes to the data_type attribute, the second is '
+                  'the data.',
+    'EF-FRESH': 'copies handed to a new table share no mutable state with '
+                'the receiver',
+    'SB-ORDERBYPOS': 'the merged orders are walked by position '
+                     '(sorted by the index, not by the id).',
+    'SB-DICTFORM': 'partition accepts group -> list or tuple of ids.',
+    'TA-NEGSLICE': 'a slice bound computed as len(x) - n is clamped or '
+                   'guarded: a negative bound counts from the end.',
+    'SB-FIRSTPROBE': 'the columns of the metadata frame are derived from '
+                     'all entries, not from the first one.',
+    'TA-RECIPROCAL': 'values are divided by the total, not multiplied by '
+                     'its reciprocal (1/t overflows for denormal t and '
+                     'rounds differently).',
+    'SB-EQ': 'equality reads ids, per-id metadata, type and the matrix '
+             'only',
+})
+
+
+_ONESHOT = {'map', 'filter', 'zip', 'enumerate', 'iter', 'reversed'}
+
+
+def rule_oneshot(repo, col, roots=((TABLE, 'Table.merge'),)):
+    from .rules_generic import closure
+    rule = 'TA-ONESHOT'
+    n = 0
+    for (rel, q), fn in sorted(closure(repo, roots).items()):
+        if isinstance(fn, ast.Lambda):
+            continue
+        par = {}
+        for p in ast.walk(fn):
+            for c in ast.iter_child_nodes(p):
+                par[id(c)] = p
+        shots = {}
+        for a in body_walk(fn):
+            if isinstance(a, ast.Assign) and len(a.targets) == 1 and \
+                    isinstance(a.targets[0], ast.Name) and (
+                    isinstance(a.value, ast.GeneratorExp) or (
+                        isinstance(a.value, ast.Call) and isinstance(
+                            a.value.func, ast.Name) and
+                        a.value.func.id in _ONESHOT)):
+                shots.setdefault(a.targets[0].id, []).append(a)
+        for name, defs in shots.items():
+            # every assignment of the name must be a one-shot for the rule
+            # to speak
+            all_defs = [a for a in body_walk(fn) if isinstance(
+                a, ast.Assign) and any(isinstance(t, ast.Name) and
+                                       t.id == name for t in a.targets)]
+            if len(all_defs) != len(defs):
+                continue
+            n += 1
+
+            def loops_of(node):
+                out, cur = [], node
+                while id(cur) in par:
+                    cur = par[id(cur)]
+                    if isinstance(cur, (ast.For, ast.While)):
+                        out.append(cur)
+                    if cur is fn:
+                        break
+                return out
+            uses = []
+            for u in body_walk(fn):
+                if isinstance(u, ast.For) and isinstance(
+                        u.iter, ast.Name) and u.iter.id == name:
+                    uses.append(u)
+                elif isinstance(u, ast.comprehension) and isinstance(
+                        u.iter, ast.Name) and u.iter.id == name:
+                    uses.append(u)
+                elif isinstance(u, ast.Call) and any(
+                        isinstance(x, ast.Name) and x.id == name
+                        for x in u.args) and (call_name(u) or '') not in (
+                        'isinstance', 'type', 'id', 'print', 'hasattr'):
+                    uses.append(u)
+            bad = None
+            dloops = set(id(l) for d in defs for l in loops_of(d))
+            for u in uses:
+                extra = [l for l in loops_of(u) if id(l) not in dloops
+                         and l is not u]
+                if extra:
+                    bad = (u, 'inside a loop the iterator was created '
+                           'outside of')
+            if bad is None and len(uses) > 1:
+                # two consumers in the same block, in sequence
+                blocks = {}
+                for u in uses:
+                    p = par.get(id(u))
+                    while p is not None and not isinstance(
+                            p, (ast.FunctionDef, ast.For, ast.While, ast.If,
+                                ast.With, ast.Try)):
+                        p = par.get(id(p))
+                    blocks.setdefault(id(p), []).append(u)
+                for us in blocks.values():
+                    if len(us) > 1:
+                        bad = (us[1], 'after an earlier consumer in the '
+                               'same block')
+            if bad:
+                col.bad(rule, rel, q, 'consumed-twice:%s' % name, bad[0],
+                        '`%s` is a one-shot iterator (`%s`) and is consumed '
+                        '%s: the second pass sees nothing'
+                        % (name, unparse(defs[0].value, 50), bad[1]))
+            else:
+                col.ok(rule, rel, q, 'oneshot:%s' % name, defs[0],
+                       'consumed once')
+    col.ok(rule, TABLE, '<scope>', 'scan', None, '%d one-shot locals' % n)
+
+
+def rule_warning_suppression(repo, col, rels=None):
+    rule = 'OR-WARNSUPPRESS'
+    n = 0
+    for rel, q, fn in repo.all_functions():
+        if '/tests/' in rel or isinstance(fn, ast.Lambda):
+            continue
+        if rels is not None and rel not in rels:
+            continue
+        for c in body_walk(fn):
+            if isinstance(c, ast.Call) and (call_name(c) or '').split(
+                    '.')[-1] in ('simplefilter', 'filterwarnings') and \
+                    c.args and isinstance(c.args[0], ast.Constant) and \
+                    c.args[0].value == 'ignore':
+                cat = next((k.value for k in c.keywords
+                            if k.arg == 'category'),
+                           c.args[1] if len(c.args) > 1 and
+                           (call_name(c) or '').endswith('simplefilter')
+                           else (c.args[2] if len(c.args) > 2 else None))
+                n += 1
+                col.check(cat is not None, rule, rel, q, 'blanket-ignore',
+                          c, 'limited to one warning category',
+                          '`%s` silences every warning raised underneath, '
+                          "including the table's own: under the 'warn' "
+                          'reaction the configured warning is lost'
+                          % unparse(c, 50))
+    col.ok(rule, 'biom', '<package>', 'scan', None,
+           '%d ignore filters' % n)
+
+
+def rule_partial_decode(repo, col):
+    rule = 'TA-PARTIALDECODE'
+    q = 'Table.from_hdf5'
+    if not repo.has_func(TABLE, q):
+        return
+    fn = repo.func(TABLE, q)
+    partial_ = {}
+    for d in ast.walk(fn):
+        if isinstance(d, ast.FunctionDef) and d is not fn:
+            rets = [r for r in ast.walk(d) if isinstance(r, ast.Return)]
+            if any(r.value is None or (isinstance(r.value, ast.Constant)
+                                       and r.value.value is None)
+                   for r in rets) and any(r.value is not None
+                                          for r in rets):
+                partial_[d.name] = d
+    n = 0
+    for c in ast.walk(fn):
+        if isinstance(c, ast.Call) and isinstance(c.func, ast.Name) and \
+                c.func.id in partial_ and c.args and any(
+                isinstance(x, ast.Attribute) and x.attr == 'attrs'
+                for x in ast.walk(c.args[0])):
+            n += 1
+            col.bad(rule, TABLE, q, 'attribute-through:%s' % c.func.id, c,
+                    '`%s` hands a header attribute to `%s`, which returns '
+                    'nothing unless it is given bytes: h5py returns str, '
+                    'so the field is read back as None'
+                    % (unparse(c, 60), c.func.id))
+    col.ok(rule, TABLE, q, 'scan', fn,
+           '%d partial helpers, %d attribute uses' % (len(partial_), n))
+
+
+def rule_date_whole(repo, col):
+    rule = 'AG-DATEINV'
+    for q in ('Table.from_json', 'Table.from_hdf5'):
+        if not repo.has_func(TABLE, q):
+            continue
+        fn = repo.func(TABLE, q)
+        for c in ast.walk(fn):
+            if isinstance(c, ast.Call) and (call_name(c) or '').endswith(
+                    'fromisoformat') and c.args:
+                a = c.args[0]
+                sliced = any(isinstance(x, ast.Subscript) and isinstance(
+                    x.slice, ast.Slice) for x in ast.walk(a))
+                col.check(not sliced, rule, TABLE, q, 'date-whole', c,
+                          'the whole date text is parsed',
+                          '`%s` parses a slice of the stored date: the UTC '
+                          'offset of an aware date with microseconds is '
+                          'cut off' % unparse(c, 60))
+
+
+def rule_dense_flag(repo, col):
+    rule = 'AG-DENSEFLAG'
+    q = 'Table.from_json'
+    if not repo.has_func(TABLE, q):
+        return
+    fn = repo.func(TABLE, q)
+    flag = None
+    for c in ast.walk(fn):
+        if isinstance(c, ast.Call):
+            k = next((k for k in c.keywords if k.arg == 'input_is_dense'),
+                     None)
+            if k is not None and isinstance(k.value, ast.Name):
+                flag = k.value.id
+    if flag is None:
+        col.unknown(rule, TABLE, q, 'flag', fn,
+                    'input_is_dense argument not a local name')
+        return
+    par = {}
+    for p in ast.walk(fn):
+        for c in ast.iter_child_nodes(p):
+            par[id(c)] = p
+    bad = None
+    n = 0
+    for a in body_walk(fn):
+        if isinstance(a, ast.Assign) and any(
+                isinstance(t, ast.Name) and t.id == flag
+                for t in a.targets):
+            n += 1
+            texts = [unparse(a.value, 200)]
+            cur = a
+            while id(cur) in par and par[id(cur)] is not fn:
+                cur = par[id(cur)]
+                if isinstance(cur, ast.If):
+                    texts.append(unparse(cur.test, 300))
+            if len(texts) == 1 and 'matrix_type' not in texts[0]:
+                bad = a
+            elif len(texts) > 1 and not all('matrix_type' in t
+                                            for t in texts[1:]):
+                bad = a
+    col.check(bad is None and n > 0, rule, TABLE, q, 'from-matrix-type',
+              bad or fn, 'the flag depends on matrix_type only',
+              '`%s` sets the dense flag from something other than '
+              'matrix_type: a sparse document whose triples happen to '
+              'have the shape of the table is read as dense'
+              % (unparse(bad, 60) if bad else ''))
+
+
+def rule_group_md_order(repo, col):
+    rule = 'AG-GROUPMD'
+    q = 'Table.to_hdf5'
+    if not repo.has_func(TABLE, q):
+        return
+    fn = repo.func(TABLE, q)
+    # attrs['data_type'] = X ; X must be element 0 of the unpacked entry
+    for a in body_walk(fn):
+        if isinstance(a, ast.Assign) and isinstance(
+                a.targets[0], ast.Subscript) and const_str_(
+                a.targets[0].slice) == 'data_type' and isinstance(
+                a.value, ast.Name):
+            name = a.value.id
+            pos = set()
+            for u in ast.walk(fn):
+                if isinstance(u, ast.Assign) and isinstance(
+                        u.targets[0], ast.Tuple) and len(
+                        u.targets[0].elts) == 2 and not isinstance(
+                        u.value, ast.Tuple):
+                    for i, e in enumerate(u.targets[0].elts):
+                        if isinstance(e, ast.Name) and e.id == name:
+                            pos.add(i)
+                elif isinstance(u, ast.Assign) and isinstance(
+                        u.targets[0], ast.Name) and u.targets[0].id == name \
+                        and isinstance(u.value, ast.Subscript) and \
+                        isinstance(u.value.slice, ast.Constant):
+                    pos.add(u.value.slice.value)
+            if not pos:
+                col.unknown(rule, TABLE, q, 'data-type-first', a,
+                            'unpacking of the entry not recognised')
+            else:
+                col.check(pos == {0}, rule, TABLE, q, 'data-type-first', a,
+                          'data_type is the first element of the entry',
+                          'the data_type attribute is filled from element '
+                          '%s of the (data type, text) entry: type and text '
+                          'are swapped in the file' % sorted(pos))
+
+
+def const_str_(e):
+    return e.value if isinstance(e, ast.Constant) and isinstance(
+        e.value, str) else None
+
+
+def rule_transpose_copies(repo, col):
+    rule = 'EF-FRESH'
+    q = 'Table.transpose'
+    if not repo.has_func(TABLE, q):
+        return
+    fn = repo.func(TABLE, q)
+    ctor = [c for c in body_walk(fn) if isinstance(c, ast.Call) and (
+        call_name(c) or '').endswith('__class__')]
+
+    def deep(e, depth=0):
+        if isinstance(e, ast.Call) and (call_name(e) or '').split(
+                '.')[-1] == 'deepcopy':
+            return True
+        if isinstance(e, ast.Name) and depth < 3:
+            vals = [a.value for a in body_walk(fn) if isinstance(
+                a, ast.Assign) and any(isinstance(t, ast.Name) and
+                                       t.id == e.id for t in a.targets)]
+            return bool(vals) and all(deep(v, depth + 1) for v in vals)
+        return False
+    n = 0
+    for c in ctor:
+        for i in (3, 4):
+            if len(c.args) > i:
+                n += 1
+                col.check(deep(c.args[i]), rule, TABLE, q,
+                          'metadata-deep-copied@%d' % i, c.args[i],
+                          'metadata is deep-copied for the new table',
+                          'the transpose is handed the receiver\'s own '
+                          'metadata values (`%s`): nested values (lists) '
+                          'are shared between a table and its transpose'
+                          % unparse(c.args[i], 40))
+    if not n:
+        col.unknown(rule, TABLE, q, 'metadata-deep-copied', fn,
+                    'constructor call not recognised')
+
+
+def rule_order_by_position(repo, col):
+    rule = 'SB-ORDERBYPOS'
+    q = 'Table.merge'
+    if not repo.has_func(TABLE, q):
+        return
+    fn = repo.func(TABLE, q)
+    idx = set()
+    for a in body_walk(fn):
+        if isinstance(a, ast.Assign) and isinstance(a.value, ast.Call) and (
+                call_name(a.value) or '').split('.')[-1] in (
+                '_union_id_order', '_intersect_id_order'):
+            idx |= {t.id for t in a.targets if isinstance(t, ast.Name)}
+    n = 0
+    for c in ast.walk(fn):
+        if isinstance(c, ast.Call) and call_name(c) == 'sorted' and c.args \
+                and isinstance(c.args[0], ast.Call) and isinstance(
+                c.args[0].func, ast.Attribute) and \
+                c.args[0].func.attr == 'items' and \
+                dotted(c.args[0].func.value) in idx:
+            n += 1
+            key = next((k.value for k in c.keywords if k.arg == 'key'),
+                       None)
+            col.check(key is not None, rule, TABLE, q, 'by-position@%d' % n,
+                      c, 'sorted by the position', '`%s` orders the '
+                      '(id, position) pairs by id: ids and metadata are '
+                      'laid out in that order while the values are placed '
+                      'by the positions' % unparse(c, 60))
+
+
+def rule_dict_form(repo, col):
+    rule = 'SB-DICTFORM'
+    q = 'Table.partition'
+    if not repo.has_func(TABLE, q):
+        return
+    fn = repo.func(TABLE, q)
+    n = 0
+    for t in ast.walk(fn):
+        if isinstance(t, ast.If) and isinstance(t.test, ast.Call) and \
+                call_name(t.test) == 'isinstance' and len(
+                t.test.args) == 2 and any(
+                isinstance(x, ast.For) for x in t.body):
+            names = {x.id for x in ast.walk(t.test.args[1])
+                     if isinstance(x, ast.Name)}
+            if names & {'list', 'tuple'}:
+                n += 1
+                col.check({'list', 'tuple'} <= names, rule, TABLE, q,
+                          'group-to-ids', t.test, 'lists and tuples',
+                          'only %s of ids are read as group -> ids: the '
+                          'other documented form falls through to id -> '
+                          'group and every id is labelled None'
+                          % sorted(names & {'list', 'tuple'}))
+
+
+def rule_negative_slice(repo, col, funcs=((TABLE, 'Table.subsample'),)):
+    rule = 'TA-NEGSLICE'
+    n = 0
+    for rel, q in funcs:
+        if not repo.has_func(rel, q):
+            continue
+        fn = repo.func(rel, q)
+
+        def is_diff(e, depth=0):
+            if isinstance(e, ast.BinOp) and isinstance(e.op, ast.Sub) and \
+                    not isinstance(e.right, ast.Constant):
+                return True
+            if isinstance(e, ast.Name) and depth < 2:
+                vals = [a.value for a in body_walk(fn) if isinstance(
+                    a, ast.Assign) and any(isinstance(t, ast.Name) and
+                                           t.id == e.id
+                                           for t in a.targets)]
+                return bool(vals) and any(is_diff(v, depth + 1)
+                                          for v in vals)
+            return False
+        for s_ in ast.walk(fn):
+            if isinstance(s_, ast.Subscript) and isinstance(
+                    s_.slice, ast.Slice):
+                for b in (s_.slice.lower, s_.slice.upper):
+                    if b is not None and is_diff(b):
+                        n += 1
+                        col.bad(rule, rel, q, 'difference-bound', s_,
+                                '`%s` slices with a bound that is a '
+                                'difference of two run-time quantities: '
+                                'when it goes negative the slice counts '
+                                'from the end (e.g. n larger than the '
+                                'number of ids)' % unparse(s_, 50))
+    col.ok(rule, TABLE, '<scope>', 'scan', None,
+           '%d difference bounds' % n)
+
+
+def rule_first_probe(repo, col):
+    rule = 'SB-FIRSTPROBE'
+    q = 'Table.metadata_to_dataframe'
+    if not repo.has_func(TABLE, q):
+        return
+    fn = repo.func(TABLE, q)
+    bad = [s_ for s_ in ast.walk(fn) if isinstance(s_, ast.Subscript) and
+           isinstance(s_.slice, ast.Constant) and s_.slice.value == 0 and
+           isinstance(s_.value, ast.Name) and s_.value.id in ('md',
+                                                              'metadata')]
+    col.check(not bad, rule, TABLE, q, 'all-entries', bad[0] if bad else fn,
+              'columns are derived from every entry',
+              '`%s`: the columns are named after the first entry only; '
+              'list-valued metadata of uneven depth needs the widest '
+              'entry' % (unparse(bad[0], 30) if bad else ''))
+
+
+def rule_reciprocal(repo, col, funcs=((TABLE, 'Table.norm'),)):
+    rule = 'TA-RECIPROCAL'
+    n = 0
+    for rel, q in funcs:
+        if not repo.has_func(rel, q):
+            continue
+        fn = repo.func(rel, q)
+        for b in ast.walk(fn):
+            if isinstance(b, ast.BinOp) and isinstance(b.op, ast.Div) and \
+                    isinstance(b.left, ast.Constant) and b.left.value in (
+                    1, 1.0) and not isinstance(b.right, ast.Constant):
+                n += 1
+                col.bad(rule, rel, q, 'reciprocal', b,
+                        '`%s`: multiplying by the reciprocal of the total '
+                        'overflows to inf for a denormal total and rounds '
+                        'differently from the division' % unparse(b, 40))
+        col.ok(rule, rel, q, 'scan', fn, 'no reciprocal of a total')
+
+
+def rule_eq_fields(repo, col):
+    rule = 'SB-EQ'
+    for q in ('Table.__eq__', 'Table.descriptive_equality',
+              'Table._data_equality'):
+        if not repo.has_func(TABLE, q):
+            continue
+        fn = repo.func(TABLE, q)
+        extra = [x for x in ast.walk(fn) if (
+            isinstance(x, ast.Call) and isinstance(x.func, ast.Attribute)
+            and x.func.attr == 'group_metadata') or (
+            isinstance(x, ast.Attribute) and x.attr in (
+                'table_id', 'create_date', 'generated_by', 'format_version',
+                '_sample_group_metadata', '_observation_group_metadata'))]
+        col.check(not extra, rule, TABLE, q, 'content-only',
+                  extra[0] if extra else fn,
+                  'only content fields are compared',
+                  '`%s` takes part in equality: copy(), sort_order(), '
+                  'filter() and transpose() do not carry it, so a table is '
+                  'unequal to its own copy' % (unparse(extra[0], 40)
+                                               if extra else ''))
+        if q == 'Table._data_equality':
+            diffs = [b for b in ast.walk(fn) if isinstance(b, ast.BinOp) and
+                     isinstance(b.op, ast.Sub)]
+            col.check(not diffs, rule, TABLE, q, 'no-difference',
+                      diffs[0] if diffs else fn, 'values are compared, not '
+                      'subtracted', '`%s`: inf - inf is NaN, a stored '
+                      'non-zero, so equal tables holding an infinity are '
+                      'unequal' % (unparse(diffs[0], 40) if diffs else ''))
+
+
+RULE_TEXT['TA-EMPTYREDUCE'] = (
+    'the whole-table minimum / maximum reduces vector by vector over the '
+    'stored values: a vector without any (all-zero sample) is skipped, '
+    'since .min()/.max() of an empty array raises.')
+
+
+def rule_empty_reduce(repo, col):
+    rule = 'TA-EMPTYREDUCE'
+    for q in ('Table.min', 'Table.max'):
+        if not repo.has_func(TABLE, q):
+            continue
+        fn = repo.func(TABLE, q)
+        par = {}
+        for p in ast.walk(fn):
+            for c in ast.iter_child_nodes(p):
+                par[id(c)] = p
+        n = 0
+        for c in ast.walk(fn):
+            if not (isinstance(c, ast.Call) and isinstance(
+                    c.func, ast.Attribute) and c.func.attr in ('min', 'max')
+                    and isinstance(c.func.value, ast.Attribute) and
+                    c.func.value.attr == 'data' and not c.args):
+                continue
+            # inside the branch for the whole table?
+            cur, whole, guarded = c, False, False
+            while id(cur) in par:
+                p = par[id(cur)]
+                if isinstance(p, ast.If) and cur is not p.test:
+                    t = unparse(p.test, 200)
+                    if "'whole'" in t and cur in p.body:
+                        whole = True
+                    elif any(w in t for w in ('.size', '.nnz', 'len(',
+                                              '.getnnz')):
+                        guarded = True
+                cur = p
+            if not whole:
+                continue
+            n += 1
+            has_identity = any(k.arg == 'initial' for k in c.keywords)
+            col.check(guarded or has_identity, rule, TABLE, q,
+                      'whole:empty-vector', c,
+                      'vectors without stored values are skipped',
+                      '`%s` is evaluated for every vector of the table: a '
+                      'sample without any non-zero value makes the '
+                      'whole-table extremum raise ValueError'
+                      % unparse(c, 40))
+        # the whole-table extremum taken from the per-axis results: those
+        # hold a placeholder (0) for vectors without stored values
+        deleg = None
+        for t in ast.walk(fn):
+            if isinstance(t, ast.If) and "'whole'" in unparse(t.test, 200):
+                for x in t.body:
+                    for c in ast.walk(x):
+                        if isinstance(c, ast.Call) and dotted(c.func) in (
+                                'self.min', 'self.max'):
+                            deleg = c
+        if deleg is not None:
+            n += 1
+            col.bad(rule, TABLE, q, 'whole:from-per-axis', deleg,
+                    '`%s`: the per-axis result reports 0 for a vector '
+                    'without stored values, so the whole-table extremum of '
+                    'a table with an all-zero vector becomes 0'
+                    % unparse(deleg, 50))
+        if not n:
+            col.unknown(rule, TABLE, q, 'whole:empty-vector', fn,
+                        'per-vector reduction of the whole branch not found')
+
+
+RULE_TEXT['OR-STALEINDEX'] = (
+    'an id lookup handed to the Table constructor was computed from the id '
+    'array that is handed alongside it: the ids are not re-bound between '
+    'the computation of the lookup and the constructor call.')
+
+
+def rule_stale_index(repo, col, rels=(TABLE,)):
+    from .cfg import CFG
+    rule = 'OR-STALEINDEX'
+    n = 0
+    for rel, q, fn in repo.all_functions():
+        if rel not in rels or isinstance(fn, ast.Lambda):
+            continue
+        calls = [c for c in body_walk(fn) if isinstance(c, ast.Call) and (
+            (call_name(c) or '') in ('Table', 'cls') or (call_name(c) or ''
+                                                         ).endswith(
+                '__class__')) and any(k.arg in ('observation_index',
+                                                'sample_index')
+                                      for k in c.keywords)]
+        if not calls:
+            continue
+        cfg = CFG(fn)
+
+        def node_of(x):
+            for c_ in cfg.stmt_nodes():
+                if c_.kind == 'stmt' and not isinstance(
+                        c_.stmt, (ast.For, ast.While, ast.If, ast.With,
+                                  ast.Try, ast.FunctionDef)) and any(
+                        y is x for y in ast.walk(c_.stmt)):
+                    return c_
+            return None
+        for c in calls:
+            for kwname, pos, idname in (('observation_index', 1,
+                                         'observation_ids'),
+                                        ('sample_index', 2, 'sample_ids')):
+                kv = next((k.value for k in c.keywords if k.arg == kwname),
+                          None)
+                ids = c.args[pos] if len(c.args) > pos else next(
+                    (k.value for k in c.keywords if k.arg == idname), None)
+                if not (isinstance(kv, ast.Name) and isinstance(ids,
+                                                                ast.Name)):
+                    continue
+                n += 1
+                cn = node_of(c)
+                defs = [s_ for s_ in cfg.stmt_nodes() if s_.kind == 'stmt'
+                        and isinstance(s_.stmt, ast.Assign) and any(
+                            isinstance(t, ast.Name) and t.id == kv.id
+                            for t in s_.stmt.targets)]
+                rebinds = [s_ for s_ in cfg.stmt_nodes() if s_.kind == 'stmt'
+                           and isinstance(s_.stmt, ast.Assign) and any(
+                               isinstance(x, ast.Name) and x.id == ids.id
+                               and isinstance(x.ctx, ast.Store)
+                               for t in s_.stmt.targets
+                               for x in ast.walk(t))]
+                stale = None
+                for d in defs:
+                    src = {x.id for x in ast.walk(d.stmt.value)
+                           if isinstance(x, ast.Name)}
+                    if ids.id not in src:
+                        continue
+                    for r in rebinds:
+                        if r is d or cn is None:
+                            continue
+                        if cfg.path_avoiding(d, r, set()) and \
+                                cfg.path_avoiding(r, cn, set()):
+                            stale = (d, r)
+                if stale:
+                    col.bad(rule, rel, q, 'stale:%s' % kwname, c,
+                            '`%s` is computed from `%s` (%s) and handed to '
+                            'the constructor after `%s` was re-bound (%s): '
+                            'the lookup still describes the earlier ids, so '
+                            'index()/exists()/data() answer for ids that '
+                            'are no longer there'
+                            % (kv.id, ids.id, unparse(stale[0].stmt, 40),
+                               ids.id, unparse(stale[1].stmt, 50)))
+                else:
+                    col.ok(rule, rel, q, '%s@%d' % (kwname, n), c,
+                           'computed from the ids handed alongside')
+    col.ok(rule, TABLE, '<file>', 'scan', None,
+           '%d explicit lookups' % n)
+
+
+RULE_TEXT['TA-SEEK'] = (
+    'a text stream is repositioned only to 0 or to a value obtained from '
+    'tell(): character counts are not byte offsets (non-ASCII text).')
+RULE_TEXT['SB-ALLSAMPLES'] = (
+    'compute_counts_per_sample_stats returns the per-sample dictionary '
+    'filled by the loop over all samples on every path.')
+
+
+def rule_seek_offsets(repo, col, rels=(TABLE, PARSE, 'biom/util.py')):
+    rule = 'TA-SEEK'
+    n = 0
+    for rel, q, fn in repo.all_functions():
+        if rel not in rels or isinstance(fn, ast.Lambda):
+            continue
+        tells = {t.id for a in ast.walk(fn) if isinstance(a, ast.Assign)
+                 and isinstance(a.value, ast.Call) and isinstance(
+                     a.value.func, ast.Attribute) and
+                 a.value.func.attr == 'tell' for t in a.targets
+                 if isinstance(t, ast.Name)}
+        for c in body_walk(fn):
+            if isinstance(c, ast.Call) and isinstance(
+                    c.func, ast.Attribute) and c.func.attr == 'seek' and \
+                    c.args:
+                a = c.args[0]
+                n += 1
+                ok = isinstance(a, ast.Constant) or (
+                    isinstance(a, ast.Name) and a.id in tells) or (
+                    isinstance(a, ast.Call) and isinstance(
+                        a.func, ast.Attribute) and a.func.attr == 'tell')
+                col.check(ok, rule, rel, q, 'seek@%d' % n, c,
+                          'constant or tell() offset',
+                          '`%s` repositions the stream to a computed '
+                          'offset: lengths of decoded lines count '
+                          'characters, the stream counts bytes, so text '
+                          'with non-ASCII ids is re-read from inside a line'
+                          % unparse(c, 50))
+    col.ok(rule, 'biom', '<scope>', 'scan', None, '%d seek calls' % n)
+
+
+def rule_all_samples_counted(repo, col):
+    rule = 'SB-ALLSAMPLES'
+    rel, q = 'biom/util.py', 'compute_counts_per_sample_stats'
+    if not repo.has_func(rel, q):
+        return
+    fn = repo.func(rel, q)
+    loop_i = None
+    for i, st in enumerate(fn.body):
+        if isinstance(st, ast.For) and 'iter' in unparse(st.iter, 80):
+            loop_i = i
+    if loop_i is None:
+        col.unknown(rule, rel, q, 'loop', fn, 'sample loop not found')
+        return
+    early = [r for st in fn.body[:loop_i] for r in ast.walk(st)
+             if isinstance(r, ast.Return)]
+    col.check(not early, rule, rel, q, 'no-early-return',
+              early[0] if early else fn,
+              'every return follows the loop over the samples',
+              '`%s` returns before the samples are walked: a table with '
+              'samples but no observations reports no sample at all'
+              % (unparse(early[0], 50) if early else ''))
